@@ -107,3 +107,5 @@ def run(P, R, tier):
             R.check(from_whole and c.calls_any("len", "shape") or from_whole and any(a.endswith(".shape") for a in c.attrs), "EXT.count", f.key, f"n_samples = {src(v)}", "counted on the whole array before the split", "the sample count is taken after the array was split into blocks", st.lineno)
     from ..engines import proto as _pp
     _pp.check_pairwise_folds(P, R, ['gmm', 'kmeans', 'utils', 'factor_analysis', 'ivector'])
+    from ..engines import proto as _pbs
+    _pbs.check_block_sums(P, R, "kmeans:m_step")
